@@ -402,6 +402,42 @@ func TestVerifC02(t *testing.T) {
 	}
 	close(ch)
 	wg.Wait()
+	// ---- epilogue: after real connections have been proxied on some registrations (the handler cases
+	// above went through MarkActive and Proxy), let more than the longest lifetime pass and sweep: every
+	// registration is expired now, whatever it carried, so no genuine flight may be accepted any more.
+	seenWorld := map[*c02World]bool{}
+	for _, hc := range handlerCases {
+		w := hc.w
+		if seenWorld[w] {
+			continue
+		}
+		seenWorld[w] = true
+		w.s.rm.VerifBackdate(7 * time.Hour)
+		w.s.rm.RemoveOldRegistrations()
+		entries := []*c02Entry{}
+		for _, e := range w.model {
+			entries = append(entries, e)
+		}
+		for _, e := range entries {
+			fl, err := w.s.vFlight(e.spec)
+			if err != nil {
+				continue
+			}
+			f := c02Flight{Label: fmt.Sprintf("genuine@own-phantom after 7 h + sweep %v (used=%v)", e.key, e.used), Data: fl, Src: e, P: e.key.P, Kind: "genuine@own-phantom:expired-after-use"}
+			rec.CaseCheap(f.Label)
+			acc, by, errs := w.wrap(f)
+			if acc != nil {
+				rec.Violation("accepted-but-must-reject:"+f.Kind, "a registration older than every lifetime still matches connections after the sweep",
+					map[string]interface{}{"flight": f.Label, "world_ops": w.ops, "accepted_by": by, "transport_answers": errs})
+			}
+			rec.Count("evaluations", 1)
+			rec.Distinct("nontrivial", fmt.Sprintf("%p", w), f.Label)
+		}
+		if regs, tos := w.s.rm.VerifTotals(); regs != 0 || tos != 0 {
+			rec.Violation("state-not-forgotten-after-all-lifetimes", "registrations or timeout records are still tracked although everything is older than every lifetime",
+				map[string]interface{}{"world_ops": w.ops, "registrations": regs, "timeout_records": tos})
+		}
+	}
 	_ = core.ConjureHMAC
 }
 
